@@ -457,13 +457,16 @@ func (s *socket) clearTransport() {
 // Possible reasons: `ping timeout`, `client error`, `parse error`,
 // `transport error`, `server close`, `transport close`
 func (s *socket) OnClose(reason string, description ...error) {
-	if s.ReadyState() != "closed" {
+	if verifhook.Enabled {
+		verifhook.Point("socket.OnClose.window", s, reason)
+	}
+	// swap instead of test-then-set: concurrent close causes must not both pass the test
+	if prev, _ := s.readyState.Swap("closed").(string); prev != "closed" {
+		socket_log.Debug("readyState updated from %s to %s", prev, "closed")
 		if verifhook.Enabled {
-			verifhook.Point("socket.OnClose.window", s, reason)
+			verifhook.Point("socket.readyState", s, prev, "closed")
 		}
 		description = append(description, nil)
-
-		s.SetReadyState("closed")
 
 		// clear timers
 		utils.ClearTimeout(s.pingIntervalTimer.Load())
